@@ -11,6 +11,8 @@ truncation for every size.  On every run
   * the Coq models are run on the same token lines / titles as the implementation (coq_bad_indices).
 """
 import ast
+import contextlib
+import io
 import re
 import math
 import os
@@ -44,8 +46,7 @@ RULE = ("programs {ORCA,G09,NWChem,QChem,XTB,MOPAC} x atom counts (quick 1..12, 
         "several steps are present, the output is truncated or an error is expected; distinct by (program, n, steps, kind, variant, cut)")
 
 # every function the hand model (coq/C18/Model.v) and the synthesisers / independent readers were written from
-# (no translator for C18).  Property setters (Species.gradient / hessian / coordinates, Atoms.coordinates) cannot be
-# addressed by name (the getter of the same name comes first); their shape checks are exercised by the streams.
+# (no translator for C18), including the property setters the parsed values pass through.
 def _w(mod, cls, names):
     return [(f"autode/wrappers/{mod}.py", f"{cls}.{n}") for n in names]
 
@@ -80,7 +81,14 @@ PINS = (
        ("autode/calculations/calculation.py", "Calculation.set_output_filename"),
        ("autode/calculations/calculation.py", "Calculation._check_properties_exist"),
        ("autode/species/species.py", "Species.print_xyz_file"), ("autode/species/molecule.py", "Molecule._init_xyz_file"),
-       ("autode/atoms.py", "Atom.__init__")])
+       ("autode/atoms.py", "Atom.__init__"),
+       # the setters the parsed values go through (getter + setter are hashed together)
+       ("autode/atoms.py", "Atoms.coordinates"), ("autode/species/species.py", "Species.coordinates"),
+       ("autode/species/species.py", "Species.gradient"), ("autode/species/species.py", "Species.hessian"),
+       ("autode/species/species.py", "Species.energy"), ("autode/species/species.py", "Species.partial_charges"),
+       ("autode/species/species.py", "Species.charge"), ("autode/species/species.py", "Species.mult"),
+       ("autode/species/species.py", "Species.solvent_name"), ("autode/species/species.py", "Species._reset_properties_for"),
+       ("autode/solvent/solvents.py", "get_solvent")])
 
 SLICE = ["lib/Sums.v", "lib/QcInst.v", "C18/Model.v", "C18/Lemmas.v", "C18/Props.v", "C18/Corr.v"]
 PRE = ("From Coq Require Import ZArith QArith Qcanon List String Ascii Bool.\nFrom AV.lib Require Import QcInst.\n"
@@ -1135,7 +1143,7 @@ def clean_dir():
             pass
 
 
-def make_calc(meths, prog, kind, case, xyz0):
+def make_calc(meths, prog, kind, case, xyz0, name="c"):
     from autode.species.species import Species
     from autode.atoms import Atom
     from autode.calculations import Calculation
@@ -1143,7 +1151,7 @@ def make_calc(meths, prog, kind, case, xyz0):
     kwc = {"opt": kws.OptKeywords, "grad": kws.GradientKeywords, "hess": kws.HessianKeywords,
            "sp": kws.SinglePointKeywords}[kind]
     sp = Species("c", [Atom(s, *c) for s, c in zip(case.symbols, xyz0)], charge=0, mult=case.mult)
-    calc = Calculation(name="c", molecule=sp, method=meths[prog](), keywords=kwc(["PBE"]))
+    calc = Calculation(name=name, molecule=sp, method=meths[prog](), keywords=kwc(["PBE"]))
     return sp, calc
 
 
@@ -1169,9 +1177,9 @@ def apply_calc(sp, calc, main):
     return r
 
 
-def run_calc(meths, prog, kind, case, main, xyz0):
+def run_calc(meths, prog, kind, case, main, xyz0, name="c"):
     """a fresh Calculation, set_output_filename on `main`; -> dict"""
-    sp, calc = make_calc(meths, prog, kind, case, xyz0)
+    sp, calc = make_calc(meths, prog, kind, case, xyz0, name=name)
     return apply_calc(sp, calc, main)
 
 
@@ -1290,6 +1298,14 @@ def expected_coords(prog, variant, kind, case, S, E, xyz0):
     return E["coords"]
 
 
+def inject_non_utf8(fn):
+    """a latin-1 comment line (0xC5 = A-ring, 0xFC = u-umlaut) after the first line of an output file"""
+    b = open(fn, "rb").read()
+    k = b.index(b"\n") + 1
+    with open(fn, "wb") as f:
+        f.write(b[:k] + b" comment: r(C-H) = 1.09 \xc5 ; host m\xfcnchen ; \xb5Eh\n" + b[k:])
+
+
 def variants_for(prog):
     if prog == "orca":
         return ["out", "hess", "xyz"]
@@ -1368,6 +1384,9 @@ def stream_complete(ctx, meths, F, sizes, step_counts):
                         continue       # their outputs carry one final block; steps only vary filler
                     case, S = build_case(ctx, prog, n, nsteps, variant)
                     materialise(prog, variant, case, S)
+                    if nsteps > 1 or n % 4 == 0:
+                        # program outputs echo titles / paths / host names: bytes that are not valid UTF-8 must not matter
+                        inject_non_utf8(S.main)
                     E = expected(prog, S.truth, n)
                     xyz0 = case.steps[0]["xyz"]
                     for kind in kinds_for(prog, variant):
@@ -1419,6 +1438,21 @@ def cut_points(lines, prog, limit):
     return sorted(ks)
 
 
+def value_class(got, want, earlier, char_cut):
+    """how a value read from an ACCEPTED truncated output relates to the file: final / unset / earlier-step /
+    number-cut-short (right shape, the file ends inside a number) / wrong"""
+    if close(got, want):
+        return "final"
+    if got is None:
+        return "unset"
+    if any(close(got, o) for o in earlier):
+        return "earlier-step"
+    g, w = np.asarray(got, dtype=float), np.asarray(want, dtype=float)
+    if char_cut and g.shape == w.shape:
+        return "number-cut-short"      # the file ends inside a number (of this property or of a mass it is scaled with)
+    return "wrong"
+
+
 def check_truncated(F, ctx, prog, kind, variant, case, S, r, E, xyz0, rep, cut, target, term_line):
     """`target` file cut to its first `cut` lines."""
     P = PNAME[prog]
@@ -1427,6 +1461,7 @@ def check_truncated(F, ctx, prog, kind, variant, case, S, r, E, xyz0, rep, cut, 
     if whole:                                            # a complete output: same oracle as for complete outputs
         check_complete(F, prog, kind, variant, case, S, r, E, xyz0, rep)
         return
+    ec = expected_coords(prog, variant, kind, case, S, E, xyz0)
     if not r["ok"]:
         if r["family"] == 4 and r.get("exc_type") == "AssertionError" and kind == "opt":
             F.add("Calculation.set_properties|truncated-coordinates-block-AssertionError",
@@ -1437,29 +1472,47 @@ def check_truncated(F, ctx, prog, kind, variant, case, S, r, E, xyz0, rep, cut, 
             F.add(f"{P}.set_output_filename|truncated-output-undocumented-exception:{r.get('exc_type')}",
                   f"{prog} {kind} ({variant}) output truncated after {cut} lines of {target}: {r['exc']} escapes "
                   "(neither a CalculationException nor the package's ValueError/IndexError parse-failure family)", rep)
+        # the error was reported - but which numbers does the caller's species hold now?  Only nothing (unchanged) or the
+        # complete final values are "not partial"
+        left = []
+        for name, got, fin, earlier in (("energy", r["energy"], E["energy"], E["all_e"][:-1]),
+                                        ("gradient", r["grad"], E["grad"], E["all_g"][:-1]),
+                                        ("Hessian", r["hess"], E.get("hess"), [])):
+            if got is None or fin is None or close(got, fin) or (name == "Hessian" and close(got, E.get("hess_projected"))):
+                continue
+            left.append(f"{name} ({describe_mismatch(got, fin, earlier)})")
+        if not (close(r["coords"], np.array(xyz0), atol=1e-10) or close(r["coords"], ec, atol=1e-10)):
+            left.append(f"coordinates ({describe_mismatch(r['coords'], ec, E['all_xyz'][:-1])})")
+        if left:
+            F.add("Calculation.set_output_filename|rejected-output-leaves-non-final-values-on-species",
+                  f"{prog} {kind} ({variant}) output truncated after {cut} lines of {target}: {r['exc']} is raised, but the species "
+                  "passed in has been modified (set_properties runs before the termination test) and now holds values that are "
+                  "not the final ones of the file: " + "; ".join(left), rep)
         return
     # accepted: only the complete final values are acceptable
-    problems = []
-    if not close(r["energy"], E["energy"]):
-        problems.append("energy " + describe_mismatch(r["energy"], E["energy"], E["all_e"][:-1]))
-    if kind == "opt" and not close(r["coords"], expected_coords(prog, variant, kind, case, S, E, xyz0), atol=1e-10):
-        problems.append("coordinates " + describe_mismatch(r["coords"], E["coords"], E["all_xyz"][:-1]))
-    g_ok = close(r["grad"], E["grad"]) or (prog == "g09" and r["grad"] is not None and
-                                             close(r["grad"] * _a0(), E["grad"]))
-    if kind in ("grad",) and not g_ok:
-        problems.append("gradient " + describe_mismatch(r["grad"], E["grad"], E["all_g"][:-1]))
-    if kind == "hess" and not (close(r["hess"], E["hess"]) or (prog == "qchem" and close(r["hess"], E.get("hess_projected")))):
-        problems.append("Hessian " + describe_mismatch(r["hess"], E["hess"]))
+    cc = bool(rep.get("cut_line_text") is not None)
+    classes = {"energy": value_class(r["energy"], E["energy"], E["all_e"][:-1], cc)}
+    if kind == "opt":
+        classes["coordinates"] = value_class(r["coords"], ec, E["all_xyz"][:-1], cc)
+    if kind == "grad":
+        g = r["grad"]
+        if prog == "g09" and g is not None and close(g * _a0(), E["grad"]):
+            g = g * _a0()
+        classes["gradient"] = value_class(g, E["grad"], E["all_g"][:-1], cc)
+    if kind == "hess":
+        h = E["hess"] if (prog == "qchem" and close(r["hess"], E.get("hess_projected"))) else r["hess"]
+        classes["Hessian"] = value_class(h, E["hess"], [], cc)
+    worst = next((c for c in ("wrong", "number-cut-short", "earlier-step", "unset") if c in classes.values()), "final")
+    detail = "; ".join(f"{k}: {v}" for k, v in classes.items())
     if target == S.main:
-        F.add(f"{P}.terminated_normally_in|truncated-output-accepted",
+        F.add(f"{P}.terminated_normally_in|truncated-output-accepted:{worst}-values",
               f"{prog} {kind} ({variant}) output of {len(S.files[S.main])} lines truncated after line {cut} (termination "
-              f"marker at line {term_line + 1} missing) is reported as terminated normally"
-              + (": " + "; ".join(problems) if problems else "; the values read happen to be the final ones"), rep)
-    elif problems:
+              f"marker at line {term_line + 1} missing) is reported as terminated normally; values read: {detail}", rep)
+    elif worst != "final":
         F.add(f"{P}.set_output_filename|truncated-auxiliary-file-accepted",
               f"{prog} {kind}: {target} truncated after {cut} lines"
               + (f" and the text {rep['cut_line_text'][-30:]!r} (a number cut short, e.g. its exponent)" if rep.get("cut_line_text") else "")
-              + f" while {S.main} is complete: accepted without any error: " + "; ".join(problems), rep)
+              + f" while {S.main} is complete: accepted without any error: {detail}", rep)
 
 
 def _a0():
@@ -1532,6 +1585,16 @@ REAL_CASES = [  # program, file, symbols, kind; parsed by autodE and by the inde
     ("xtb", "xtb_6_3_2_opt.out", ["Cl", "C", "H", "H", "H"], "opt"),
     ("mopac", "methane_opt_mopac.out", ["C", "H", "H", "H", "H"], "opt"),
     ("mopac", "h2_grad_mopac.out", ["H", "H"], "grad"),
+    # branches no synthesiser prints
+    ("orca", "numerical_orca.out", ["C", "Cl", "H", "H", "H", "Cl"], "grad"),        # CARTESIAN GRADIENT (NUMERICAL): i+2
+    ("orca", "tmp_orca.out", ["C", "Cl", "H", "H", "H", "Cl"], "grad"),              # The final MP2 gradient: i+1
+    ("orca", "h2o_orca_v5_charges.out", ["O", "H", "H"], "sp"),                      # ORCA 5 Hirshfeld table
+    ("g09", "tmp_g09_hess_alt.log", ["F", "Cl", "C", "H", "H", "H"], "hess"),        # " Energy= ... NIter=" (external)
+    ("nwchem", "H_sp_nwchem.out", ["H"], "sp"),                                      # Total SCF energy
+    ("xtb", "xtb_6_1_opt.out", ["C", "H", "H", "H", "H"], "opt"),                    # $coord block (bohr), "total E"
+    ("xtb", "xtb_no_version_opt.out", ["C", "H", "H", "H", "H"], "opt"),
+    ("xtb", "h2_grad_xtb.out", ["H", "H"], "grad"),                                  # 3-column <name>_xtb.grad
+    ("mopac", "H2O_mopac_new.out", ["O", "H", "H"], "sp"),                           # ETOT (EONE + ETWO)
 ]
 
 
@@ -1556,7 +1619,7 @@ def stream_real(ctx, meths, F, real_dir):
         for f in os.listdir(os.path.dirname(path)):
             if f.startswith(fn.rsplit(".", 1)[0]):
                 shutil.copy(os.path.join(os.path.dirname(path), f), f)
-        r = run_calc(meths, prog, kind, case, fn, xyz0)
+        r = run_calc(meths, prog, kind, case, fn, xyz0, name=fn[:-8] if fn == "h2_grad_xtb.out" else "c")
         rep = {"stream": "real-files", "prog": prog, "file": fn, "kind": kind}
         ctx.count("real-files", (prog, fn), nontrivial=True, sample=rep)
         P = PNAME[prog]
@@ -1568,19 +1631,35 @@ def stream_real(ctx, meths, F, real_dir):
         if prog == "orca":
             want["energy"] = float(L[fa("FINAL SINGLE POINT ENERGY")[-1]].split()[4])
             g = fa("CARTESIAN GRADIENT")
-            if g:
+            mp2 = fa("The final MP2 gradient")
+            if mp2 and (not g or mp2[-1] > g[-1]):      # rows "  k:  gx gy gz" directly below the title
+                want["grad"] = np.array([[float(v) for v in L[mp2[-1] + 1 + k].split()[-3:]] for k in range(n)]) / a0
+            elif g and "NUMERICAL" in L[g[-1]]:          # title, dashes, rows
+                want["grad"] = np.array([[float(v) for v in L[g[-1] + 2 + k].split()[-3:]] for k in range(n)]) / a0
+            elif g:
                 want["grad"] = np.array(LY.ORCA.read_gradient(L, g[-1], n)) / a0
+            hs = fa("HIRSHFELD ANALYSIS")
+            if hs:
+                want["charges"] = LY.ORCA.read_charges(L, hs[-1], n)
             if kind == "hess":
                 LH = open(path.replace(".out", ".hess")).read().split("\n")
                 H, _ = LY.ORCA.read_hess_matrix(LH, [k for k, l in enumerate(LH) if "$hessian" in l][0])
                 want["hess"] = np.array(H) / a0 ** 2
+        elif prog == "g09" and fn == "tmp_g09_hess_alt.log":
+            el = [k for k in fa(" Energy=") if "NIter=" in L[k]]
+            want["energy"] = float(L[el[-1]].split()[1])
+            flat = LY.G09.read_archive_ltril(L)
+            m = 3 * n
+            Hm = np.zeros((m, m))
+            Hm[np.tril_indices(m)] = flat
+            want["hess"] = (Hm + Hm.T - np.diag(np.diag(Hm))) / a0 ** 2
         elif prog == "g09":
             want["energy"] = float(L[fa("SCF Done")[-1]].split()[4])
             want["coords"] = np.array(LY.G09.read_coords(L, fa("Input orientation")[-1], n))
             want["grad"] = -np.array(LY.G09.read_forces(L, fa("Forces (Hartrees/Bohr)")[-1], n)) / a0
             want["charges"] = LY.G09.read_charges(L, fa("Sum of Mulliken charges")[-1], n)
         elif prog == "nwchem":
-            want["energy"] = float(L[fa("Total DFT energy")[-1]].split()[4])
+            want["energy"] = float(L[(fa("Total DFT energy") or fa("Total SCF energy"))[-1]].split()[4])
             g = fa("DFT ENERGY GRADIENTS")
             if g:
                 want["grad"] = np.array(LY.NWChem.read_gradient(L, g[-1], n)) / a0
@@ -1605,10 +1684,19 @@ def stream_real(ctx, meths, F, real_dir):
                                           for i, row in enumerate(LY.QChem.read_hessian(L, i0, 3 * n))]) / a0 ** 2
                 want["hess"] = mk(hs[0])
                 want["hess_projected"] = mk(hs[-1])
+        elif prog == "xtb" and fn == "h2_grad_xtb.out":
+            want["energy"] = float(L[fa("TOTAL ENERGY")[-1]].split()[-3])
+            want["grad"] = np.array([[float(v) for v in l.split()] for l in open("h2_grad_xtb_xtb.grad") if l.split()]) / a0
+        elif prog == "xtb" and fa("$coord"):             # xtb 6.1 / 6.2.2 / no version line: $coord block in bohr
+            want["energy"] = float(L[fa("total E")[-1]].split()[-1])
+            c0 = fa("$coord")[-1]
+            want["coords"] = np.array([[float(v) for v in L[c0 + 1 + k].split()[:3]] for k in range(n)]) * a0
         elif prog == "xtb":
             want["energy"] = float(L[fa("TOTAL ENERGY")[-1]].split()[-3])
             want["coords"] = np.array(LY.XTB.read_final_structure(L, fa("final structure")[0], n))
             want["charges"] = LY.XTB.read_charges(L, fa("covCN")[-1], n)
+        elif prog == "mopac" and fa("ETOT (EONE + ETWO)"):
+            want["energy"] = float(L[fa("ETOT (EONE + ETWO)")[0]].split()[-2]) / C.ha_to_eV
         elif prog == "mopac":
             want["energy"] = float(L[fa("TOTAL ENERGY")[0]].split()[3]) / C.ha_to_eV
             if kind == "grad":
@@ -1736,6 +1824,68 @@ def stream_char_truncated(ctx, meths, F, sizes, max_lines):
     clean_dir()
 
 
+# ============================================================================ abnormally terminated outputs
+ERROR_MARK = {"orca": ["ORCA finished by error termination in SCF", "Calling Command: mpirun orca_scf_mpi"],
+              "g09": [" Error termination via Lnk1e in /usr/local/g09/l502.exe at Mon Dec 16 12:50:56 2019."],
+              "nwchem": [" MPI_ABORT was invoked on rank 0 in communicator MPI_COMM_WORLD with errorcode 911."],
+              "qchem": [" Q-Chem fatal error occurred in module libdft/dftcodes.C, line 804:", "", " SCF failed to converge"],
+              "xtb": ["#ERROR! SCF not converged, aborting run", "abnormal termination of xtb"],
+              "mopac": [" Error and normal termination messages reported in this calculation"]}
+LIMIT_MARK = {"orca": ["    The optimization did not converge but reached the maximum number of", "    optimization cycles."],
+              "g09": [" Optimization stopped.", "    -- Number of steps exceeded,  NStep=  3"],
+              "nwchem": [" Failed to converge in maximum number of steps or available time"],
+              "qchem": [" **  MAXIMUM OPTIMIZATION CYCLES REACHED  **", " Q-Chem fatal error occurred in module geomopt, line 34:"]}
+
+
+def stream_abnormal(ctx, meths, F, sizes):
+    """(a) outputs that contain the program's error message are reported (never their numbers); (b) outputs that stop at
+    the optimisation-cycle limit count as terminated (documented behaviour) and give the values of their last step"""
+    SY = sys.modules[__name__]
+    for prog in SY.PROGRAMS:
+        variant = {"orca": "hess", "qchem": "opt"}.get(prog, "std")
+        kind = "opt" if "opt" in kinds_for(prog, variant) else "grad"
+        P = PNAME[prog]
+        for n in sizes:
+            case, S = build_case(ctx, prog, n, 2 if prog not in ("xtb", "mopac") else 1, variant)
+            E = expected(prog, S.truth, n)
+            xyz0 = case.steps[0]["xyz"]
+            L = S.files[S.main]
+            term = max(i for i, l in enumerate(L) if any(t in l for t in TERMINATION[prog]))
+            # the program stops at its error: nothing follows the message
+            scen = {"error-ends-output": L[:term] + ERROR_MARK[prog]}
+            if prog == "qchem":
+                # a batch job: the first job dies early, Q-Chem carries on with the next jobs (hundreds of lines later)
+                mid = len(L) // 3
+                scen["error-in-first-job-of-batch"] = (L[:mid] + ERROR_MARK[prog] + ["", "", " Job 2 of 3 "] + L[5:] +
+                                                       ["", " Job 3 of 3 "] + L[5:])
+            for name, lines in scen.items():
+                materialise(prog, variant, case, S)
+                write_files({S.main: lines})
+                rep = {"stream": "abnormal", "prog": prog, "n": n, "variant": variant, "kind": kind, "scenario": name}
+                with contextlib.redirect_stdout(io.StringIO()):      # Q-Chem prints the last lines of a failed output
+                    r = run_calc(meths, prog, kind, case, S.main, xyz0)
+                ctx.count("abnormal", (prog, n, name), nontrivial=True, sample=rep)
+                if r["ok"]:
+                    F.add(f"{P}.terminated_normally_in|abnormal-termination-accepted:{name}",
+                          f"{prog} {kind} output ({len(lines)} lines) containing the program's error message "
+                          f"{ERROR_MARK[prog][0].strip()!r} ({name}) is reported as terminated normally and energy "
+                          f"{r['energy']} is set", rep)
+            if prog in LIMIT_MARK and kind in ("opt", "grad"):
+                lines = L[:term] + LIMIT_MARK[prog] + [l for l in L[term + 1:] if not any(t in l for t in TERMINATION[prog])]
+                materialise(prog, variant, case, S)
+                write_files({S.main: lines})
+                rep = {"stream": "abnormal", "prog": prog, "n": n, "variant": variant, "kind": kind, "scenario": "cycle-limit"}
+                r = run_calc(meths, prog, kind, case, S.main, xyz0)
+                ctx.count("abnormal", (prog, n, "cycle-limit"), nontrivial=True)
+                if not r["ok"]:
+                    F.add(f"{P}.terminated_normally_in|cycle-limit-output-rejected",
+                          f"{prog} {kind} output that stops at the optimisation cycle limit ({LIMIT_MARK[prog][-1].strip()!r}) is "
+                          f"documented to count as terminated, but was rejected: {r['exc']}", rep)
+                else:
+                    check_complete(F, prog, kind, variant, case, S, r, E, xyz0, rep)
+    clean_dir()
+
+
 # ============================================================================ one calculation, file rewritten
 class _Collect:
     def __init__(self):
@@ -1801,6 +1951,21 @@ def stream_reuse(ctx, meths, F, sizes):
                           f"{prog} {kind}: a complete output was replaced by a truncated one under the same name (termination "
                           "line missing) and the second set_output_filename still reports normal termination",
                           dict(rep, scenario="complete-then-truncated"))
+            if prog == "xtb":
+                # a re-run in the same directory: new c.out + new gradient (c_xtb_OLD.grad) while the converted
+                # c_xtb_xtb.grad of the FIRST run is still there (XTB.py:368-375 looks at it first)
+                rep = {"stream": "reuse", "prog": prog, "n": n, "variant": variant, "kind": "grad", "scenario": "xtb-rerun-same-directory"}
+                ctx.count("reuse", (prog, n, "xtb-rerun"), nontrivial=True, sample=rep)
+                put(caseA, SA)
+                rA = run_calc(meths, prog, "grad", caseA, SA.main, xyz0)
+                write_files({k: v for k, v in SB.files.items()})          # nothing is removed
+                rB = run_calc(meths, prog, "grad", caseB, SB.main, xyz0)
+                if rA["ok"] and not (rB["ok"] and close(rB["grad"], EB["grad"])):
+                    F.add("XTB.gradient_from|stale-converted-gradient-file",
+                          "xtb gradient calculation re-run in the same directory: the new c.out and new turbomole gradient file are "
+                          "on disk, but gradient_from returns the gradient of the PREVIOUS run from the converted c_xtb_xtb.grad "
+                          f"(energy read is the new one: {close(rB['energy'], EB['energy'])}; gradient: "
+                          f"{describe_mismatch(rB['grad'], EB['grad'], [EA['grad']]) if rB['ok'] else rB['exc']})", rep)
     clean_dir()
 
 
@@ -1900,6 +2065,29 @@ def stream_xyz(ctx, F, sizes, n_per):
                     read_back_frame(m, sp, F, "xyz_file_to_molecules", rep)
             except Exception as e:  # noqa
                 F.add("xyz_file_to_molecules|valid-file-rejected", f"{type(e).__name__}: {str(e)[:100]}", rep)
+    # ---- xyz files of other programs (stream "xyz-foreign"): 14 decimals, exponents, extra columns, tabs - outside the
+    #      5-decimal token model, checked against float(token) directly
+    rngf = case_rng(ctx, "xyz-foreign")
+    for k in range(6):
+        n = rngf.choice([1, 2, 5, 9])
+        syms = [rngf.choice(XYZ_SYMS) for _ in range(n)]
+        toks = [[rngf.choice(["{:.14f}", "{:.8E}", "{:.3f}", "{:.0f}"]).format(rngf.uniform(-9, 9)) for _ in range(3)]
+                for _ in range(n)]
+        lines = [f"  {n}  ", f" energy: {rngf.uniform(-99, 0):.12f} xtb: 6.3.2"] + \
+                [f"{s_:<2s}\t" + "   ".join(row) + ("  0.5" if k % 2 else "") for s_, row in zip(syms, toks)]
+        clean_dir()
+        open("f.xyz", "w").write("\n".join(lines) + "\n")
+        want = np.array([[float(t) for t in row] for row in toks])
+        rep = {"stream": "xyz-foreign", "lines": lines}
+        ctx.count("xyz-foreign", (k, n), nontrivial=True, sample=rep)
+        for reader, fun in (("xyz_file_to_atoms", lambda: xyz_file_to_atoms("f.xyz")), ("xyz_file_to_molecules", lambda: xyz_file_to_molecules("f.xyz")[0].atoms)):
+            try:
+                atoms = fun()
+                got = np.array([a.coord for a in atoms], dtype=float)
+                if [a.label for a in atoms] != syms or not np.array_equal(got, want):
+                    F.add(f"{reader}|foreign-xyz-values-differ", f"{reader}: {describe_mismatch(got, want)}", rep)
+            except Exception as e:  # noqa
+                F.add(f"{reader}|valid-file-rejected", f"{reader} rejects a high-precision xyz file: {type(e).__name__}: {e}", rep)
     # ---- EVERY implicit solvent of the library whose name is one token (commas, digits, '=', brackets ...):
     #      written by the real writer, read back by both readers
     for solvent in plain:
@@ -1963,16 +2151,25 @@ def stream_xyz(ctx, F, sizes, n_per):
         "only-count": (["4"], True), "zero-atoms": (["0", ""], True),
         "two-frames-second-truncated": (G + G[:-1], True),
         "negative-count-2": (["-2"] + G[1:], True), "negative-count-5": (["-5"] + G[1:], True),
+        # values in the title line that cannot be converted
+        "title-charge-not-int": ([G[0], re.sub(r"charge = \S+", "charge = x", G[1])] + G[2:], True),
+        "title-charge-float": ([G[0], re.sub(r"charge = \S+", "charge = 1.0", G[1])] + G[2:], True),
+        "title-mult-zero": ([G[0], re.sub(r"mult = \S+", "mult = 0", G[1])] + G[2:], True),
+        "title-mult-float": ([G[0], re.sub(r"mult = \S+", "mult = 2.0", G[1])] + G[2:], True),
+        "title-energy-junk": ([G[0], re.sub(r"E = \S+", "E = abc", G[1])] + G[2:], True),
         "trailing-blank-line": (G + [""], False), "extra-column": (G[:2] + [G[2] + "  0.5"] + G[3:], False),
     }
     for name, (lines, malformed) in muts.items():
         open("m.xyz", "w").write("\n".join(lines) + ("\n" if lines else ""))
-        for reader, fun in (("xyz_file_to_atoms", xyz_file_to_atoms), ("xyz_file_to_molecules", xyz_file_to_molecules)):
+        readers = (("xyz_file_to_atoms", xyz_file_to_atoms), ("xyz_file_to_molecules", xyz_file_to_molecules))
+        if name.startswith("title-"):          # the atom-only reader ignores the title; Molecule(file) reads it
+            readers = (("Molecule(xyz)", lambda f: Molecule(f).atoms), ("xyz_file_to_molecules", xyz_file_to_molecules))
+        for reader, fun in readers:
             rep = {"stream": "xyz-malformed", "mutant": name, "reader": reader, "lines": lines}
             ctx.count("xyz-malformed", (name, reader), nontrivial=True, sample=rep)
             try:
                 res = fun("m.xyz")
-                out = ("ok", [len(res)] if reader == "xyz_file_to_atoms" else [x.n_atoms for x in res])
+                out = ("ok", [len(res)] if reader != "xyz_file_to_molecules" else [x.n_atoms for x in res])
             except XYZfileWrongFormat:
                 out = ("format-error", None)
             except Exception as e:  # noqa
@@ -1989,7 +2186,12 @@ def stream_xyz(ctx, F, sizes, n_per):
                           f"{reader} accepts the malformed file '{name}' ({len(lines)} lines, declared {lines[0] if lines else '-'} atoms) "
                           f"and returns {out[1]} atoms per frame", rep)
                 elif out[0] != "format-error":
-                    if name.startswith("negative-count"):
+                    if name.startswith("title-"):
+                        F.add("xyz-title|malformed-value-undocumented-error",
+                              f"{reader}: title line {lines[1]!r} ({name[6:]}): the value cannot be converted and a bare "
+                              f"{out[0]} ({out[1]}) escapes instead of XYZfileWrongFormat (_set_attr_from_title_line / "
+                              "Molecule._init_xyz_file only expect IndexError)", rep)
+                    elif name.startswith("negative-count"):
                         F.add("xyz_file_to_molecules|negative-atom-count",
                               f"a count line of {lines[0]} makes xyz_file_to_molecules raise {out[0]} ({out[1]}) instead of "
                               "XYZfileWrongFormat", rep)
@@ -2107,19 +2309,31 @@ def stream_model(ctx, meths, F, atom_counts, trunc_limit, n_titles):
             if prog == "orca":
                 toks = num_lines(blk)
                 add(f"check_orca_layout 5%nat {qc_mat(Mtok)} {qc_mat(toks)}", dict(d, what="layout"), ("orca-layout", n))
-                add(f"check_orca_file true {R}%nat {qc_mat(toks + [[]])} {cls}%nat {mat(scale(H) if H is not None else None)}",
+                def tail_rows(lines):
+                    # lines after the block: only "is this a line starting with $end" matters ([-1] = yes, [] = other)
+                    return [[-1.0] if ln.startswith("$end") else [] for ln in lines]
+                add(f"check_orca_file {R}%nat {qc_mat(toks + tail_rows(L[j:]))} {cls}%nat {mat(scale(H) if H is not None else None)}",
                     dict(d, what="parse"), ("orca-parse", n))
+                # "$end" variants: indented (startswith fails), only BEFORE the block (not searched), missing
+                for vname, lines2 in (("end-indented", [(" " + ln) if ln.startswith("$end") else ln for ln in L]),
+                                      ("end-only-before-block", L[:i] + ["$end"] + [ln for ln in L[i:] if not ln.startswith("$end")]),
+                                      ("end-missing", [ln for ln in L if not ln.startswith("$end")])):
+                    write_files({target: lines2})
+                    i2 = [k for k, l in enumerate(lines2) if "$hessian" in l][0]
+                    c4, H4 = impl_hessian(meths, prog, case, S.main, xyz0)
+                    add(f"check_orca_file {R}%nat {qc_mat(toks + tail_rows(lines2[i2 + 2 + len(blk):]))} {c4}%nat "
+                        f"{mat(scale(H4) if H4 is not None else None)}", dict(d, what=vname), ("orca-end", n, vname))
                 cuts = cut_list(len(blk), trunc_limit)
                 for k in cuts:
                     write_files({target: head + blk[:k]})
                     c2, H2 = impl_hessian(meths, prog, case, S.main, xyz0)
-                    add(f"check_orca_file false {R}%nat {qc_mat(num_lines(blk[:k]))} {c2}%nat {mat(scale(H2) if H2 is not None else None)}",
+                    add(f"check_orca_file {R}%nat {qc_mat(num_lines(blk[:k]))} {c2}%nat {mat(scale(H2) if H2 is not None else None)}",
                         dict(d, what="truncated", cut=k), ("orca-trunc", n, k))
                     # the same cut with the rest of the file ($vibrational_frequencies ... $end) still present: the
                     # closing line is there, so the block itself is parsed by the reassembly rule
                     write_files({target: head + blk[:k] + L[j:]})
                     c3, H3 = impl_hessian(meths, prog, case, S.main, xyz0)
-                    add(f"check_orca_file true {R}%nat {qc_mat(num_lines(blk[:k]) + [[]])} {c3}%nat {mat(scale(H3) if H3 is not None else None)}",
+                    add(f"check_orca_file {R}%nat {qc_mat(num_lines(blk[:k]) + tail_rows(L[j:]))} {c3}%nat {mat(scale(H3) if H3 is not None else None)}",
                         dict(d, what="block-lines-missing", cut=k), ("orca-missing", n, k))
             elif prog == "qchem":
                 # complete: the block the implementation uses (QChem.py:349-351, commit 5fcb1eb: not the projected one)
@@ -2170,6 +2384,60 @@ def stream_model(ctx, meths, F, atom_counts, trunc_limit, n_titles):
                     c2, H2 = impl_hessian(meths, prog, case, S.main, xyz0, n_override=n2)
                     add(f"check_g09_parse {3 * n2}%nat {qc_list(flat)} {c2}%nat {mat(scale(H2) if H2 is not None else None)}",
                         dict(d, what="other-atom-count", n2=n2), ("g09-count", n, n2))
+    clean_dir()
+    # ---------------- "last marker wins" (scan) and short per-atom tables (table_parse) on multi-step outputs
+    for prog, variant, kind in (("orca", "out", "opt"), ("g09", "std", "opt"), ("nwchem", "std", "grad"), ("qchem", "opt", "opt")):
+        case, S = build_case(ctx, prog, 2, 3, variant, exotic=False)
+        materialise(prog, variant, case, S)
+        xyz0 = case.steps[0]["xyz"]
+        r = run_calc(meths, prog, kind, case, S.main, xyz0)
+        L = S.files[S.main]
+        for propname, blocks, got in (("gradient", S.truth["all_g"], None if r["grad"] is None else (r["grad"] * a0).tolist()),
+                                      ("coordinates", S.truth["all_xyz"], r["coords"].tolist() if kind == "opt" else None)):
+            marks = PROP_MARK[prog][propname]
+            if propname == "coordinates" and prog == "qchem":
+                continue            # two kinds of coordinate blocks per step (orientation + optimiser): see README
+            if got is None:
+                continue
+            seq, k = [], 0
+            for ln in L:
+                if any(m in ln for m in marks) and "(A.U.)" not in ln:
+                    seq.append(f"(Mk {qc_mat(blocks[min(k, len(blocks) - 1)])})")
+                    k += 1
+                else:
+                    seq.append("Ot")
+            add(f"check_scan [{'; '.join(seq)}] {qc_mat(got)}", {"kind": "scan", "prog": prog, "prop": propname, "markers": k},
+                ("scan", prog, propname))
+    for prog, variant, skip, mark in (("orca", "out", 2, "CARTESIAN GRADIENT"), ("nwchem", "std", 3, "DFT ENERGY GRADIENTS")):
+        case, S = build_case(ctx, prog, 3, 1, variant, exotic=False)
+        xyz0 = case.steps[0]["xyz"]
+        L = S.files[S.main]
+        i = [k for k, l in enumerate(L) if mark in l][-1]
+        for cut in range(i + 1, i + 2 + skip + case.n):
+            materialise(prog, variant, case, S)
+            write_files({S.main: L[:cut]})
+            sp, calc = make_calc(meths, prog, "grad", case, xyz0)
+            calc.output.filename = S.main
+            try:
+                sp.gradient = calc.method.gradient_from(calc._executor)
+                cls, g = 0, (np.array(sp.gradient) * a0).tolist()
+            except Exception as e:  # noqa
+                cls, g = family(e), None
+            rows = [[float(x) for x in ln.split()[-3:]] if len(FLOAT_RE.findall(ln)) >= 3 else [] for ln in L[i + 1:cut]]
+            add(f"check_table {case.n}%nat {skip}%nat {qc_mat(rows)} {cls}%nat {mat(g)}",
+                {"kind": "table", "prog": prog, "cut": cut - i - 1}, ("table", prog, cut - i))
+    clean_dir()
+    # ---------------- the four title lookups on titles the real writer produced (premise of Props.xyz_title_lookup)
+    from autode.solvent.solvents import solvents as _solv
+    punct = [x.name for x in _solv if x.is_implicit and " " not in x.name and any(ch in x.name for ch in ",;:+()=")][:8]
+    for k, solvent in enumerate([None, "water", "dichloromethane"] + punct):
+        sp = xyz_species(ctx, f"title-{k}", 2, solvent, with_energy=(k % 3 != 1))
+        clean_dir()
+        sp.print_xyz_file(filename="t.xyz")
+        title = open("t.xyz").read().split("\n")[1]
+        en = None if sp.energy is None else f"{float(sp.energy):.6f}"
+        add(f"lookup_all {coq_str(title)} {coq_str(str(sp.charge))} {coq_str(str(sp.mult))} {coq_opt_str(solvent)} {coq_opt_str(en)}",
+            {"kind": "written-title", "title": title}, ("written-title", k))
     clean_dir()
     # ---------------- size recovery: the float formula of geom.py vs the integer square root of the model
     expr = ltril_formula()
@@ -2278,6 +2546,17 @@ def xline_of(line, is_title):
     return "(LTok [" + "; ".join(out) + "])"
 
 
+def _positive_int(v):
+    if int(v) <= 0:
+        raise ValueError(v)
+
+
+def _solvent(v):
+    from autode.solvent.solvents import get_solvent
+    if get_solvent(v, kind="implicit") is None:
+        raise ValueError(v)
+
+
 def stream_model_xyz(ctx, add, reader_key):
     from autode.input_output import xyz_file_to_atoms, xyz_file_to_molecules
     from autode.atoms import elements
@@ -2300,7 +2579,12 @@ def stream_model_xyz(ctx, add, reader_key):
              "numeric-label": G[:2] + ["1 0.0 0.0 0.0"] + G[3:], "unknown-el-junk": G[:2] + ["Qq 0.0 zz 0.0"] + G[3:],
              "known-el-junk": G[:2] + ["H 0.0 zz 0.0"] + G[3:], "suffix-title": ["3", "xmult = 5 mult = 3 charge = 1"] + G[2:],
              "three-frames-misaligned": A + ["3"], "neg1": ["-1"] + G[1:], "neg2": ["-2"] + G[1:], "neg5": ["-5"] + G[1:],
-             "two-trailing-blanks": A + ["", "  "], "blank-only": ["", ""], "blank-title": ["3", ""] + G[2:]}
+             "two-trailing-blanks": A + ["", "  "], "blank-only": ["", ""], "blank-title": ["3", ""] + G[2:],
+             "title-charge-x": [G[0], "charge = x mult = 2"] + G[2:], "title-mult-0": [G[0], "charge = 1 mult = 0"] + G[2:],
+             "title-mult-float": [G[0], "charge = 1 mult = 2.0"] + G[2:], "title-E-junk": [G[0], "charge = 1 mult = 2 E = abc"] + G[2:],
+             "title-solvent-unknown": [G[0], "charge = 1 mult = 2 solvent_name = notasolvent"] + G[2:],
+             "title-second-frame-bad": A[:6] + ["charge = 1.5 mult = 2"] + A[7:],
+             "title-bad-and-short-frame": [G[0], "charge = x"] + G[2:-1]}
     for name, lines in files.items():
         open("m.xyz", "w").write("\n".join(lines) + ("\n" if lines else ""))
         # single-frame reader
@@ -2338,7 +2622,18 @@ def stream_model_xyz(ctx, add, reader_key):
             if cls in (1, 2):
                 cls = 4          # anything but XYZfileWrongFormat is one class (undocumented) in the model
         xl = "[" + "; ".join(xline_of(l, k in tidx) for k, l in enumerate(lines)) + "]"
-        add(f"check_read_molecules {els} {coq_str(reader_key)} {xl} {cls}%nat {exp}",
+        toks = sorted({t for k in tidx if k < len(lines) for t in lines[k].split()})
+        preds = []
+        for test in (lambda v: int(v), lambda v: _positive_int(v), lambda v: float(v), lambda v: _solvent(v)):
+            okl = []
+            for t in toks:
+                try:
+                    test(t)
+                    okl.append(t)
+                except Exception:  # noqa
+                    pass
+            preds.append("[" + "; ".join(coq_str(t) for t in okl) + "]")
+        add(f"check_read_molecules {els} {coq_str(reader_key)} {' '.join(preds)} {xl} {cls}%nat {exp}",
             {"kind": "xyz_file_to_molecules", "file": name, "lines": lines}, ("xyz-mols", name))
     clean_dir()
 
@@ -2346,11 +2641,11 @@ def stream_model_xyz(ctx, add, reader_key):
 # ============================================================================ entry points
 def tiers(ctx):
     if ctx.quick:
-        return {"complete": [1, 2, 3, 4, 5, 6, 7, 10, 12], "steps": [1, 3], "trunc": [(1, 90), (2, 40), (3, 16)], "reuse": [2, 7], "chars": ([2], 10),
+        return {"complete": [1, 2, 3, 4, 5, 6, 7, 10, 12], "steps": [1, 3], "trunc": [(1, 90), (2, 40), (3, 16)], "reuse": [2, 7], "chars": ([2], 10), "abnormal": [3],
                 "xyz": ([1, 2, 3, 5, 8, 12], 3),
                 "model": ({"orca": [1, 2, 3], "qchem": [1, 3], "nwchem": [2, 4], "g09": [1, 3]}, 6, 12)}
     return {"complete": list(range(1, 41)), "steps": [1, 3], "trunc": [(1, 1000), (2, 1000), (3, 600), (5, 300), (7, 200), (12, 150)],
-            "reuse": [1, 2, 3, 6, 7, 12, 20], "chars": ([1, 2, 3, 5], 30), "xyz": (list(range(1, 41)), 4),
+            "reuse": [1, 2, 3, 6, 7, 12, 20], "chars": ([1, 2, 3, 5], 30), "abnormal": [1, 2, 3, 7, 12], "xyz": (list(range(1, 41)), 4),
             "model": ({p: [1, 2, 3, 4, 5] for p in ("orca", "qchem", "nwchem", "g09")}, 30, 300)}
 
 
@@ -2397,6 +2692,9 @@ def run(ctx):
         # 4a. the output ends in the middle of a value line of the last step
         stream_char_truncated(ctx, meths, F, *T["chars"])
         ctx.log(f"character-level truncation done: {F.count} oracle failures so far")
+        # 4a'. outputs with the program's own error message / cycle-limit message
+        stream_abnormal(ctx, meths, F, T["abnormal"])
+        ctx.log(f"abnormal terminations done: {F.count} oracle failures so far")
         # 4b. one calculation object, output rewritten under the same name
         stream_reuse(ctx, meths, F, T["reuse"])
         ctx.log(f"re-used calculation objects done: {F.count} oracle failures so far")
@@ -2483,26 +2781,34 @@ def replay(ctx, obj):
 
 
 MANIFEST = {
-    "technique": "Coq proof over a hand-written executable model of the output layouts and parser reassembly rules + "
-                 "correspondence on synthesised outputs whose layouts are validated against the real output files",
-    "level_text": ("Machine-checked theorems (coq/C18/Props.v, closed under the global context) for EVERY matrix size and block "
-                   "width: column-block wrapping is lossless (w>=1 incl. w not dividing n); the code's own reassembly rules of "
-                   "ORCA (.hess, skip-shorter-line + hessian[i mod 3N] += block), Q-Chem (hess[j] += block until 3Nx3N) and "
-                   "NWChem (indexed lower-triangular blocks) return the printed matrix; Gaussian lower-triangle flattening / "
-                   "symm_matrix_from_ltril round trip with exact size recovery (integer square root; range of the float formula "
-                   "stated); the last marker's block wins; truncated blocks are rejected (Q-Chem: CouldNotGetProperty for every "
-                   "strict prefix; ORCA: complete matrix or shape error, never another matrix; Gaussian / NWChem: element-count "
-                   "checks; tables: shape error); xyz single/multi-frame line structure round trip with 5-decimal rounding "
-                   "(|err| <= half a unit), StringDict title lookup characterised as the first whole-key occurrence followed by a token (sound and complete); malformed xyz files are rejected with XYZfileWrongFormat by both readers (all inputs); statements "
-                   "that are false of the faithful model are proved as *_refuted witnesses."),
-    "level_note": ("PARTIAL: theorems are about token lines (str.split) and abstract values. The per-program regex/keyword "
-                   "scanning that locates the numeric blocks, float<->text conversion, unit factors (taken from autode.constants), "
-                   "termination markers and error classes are covered only by the correspondence streams: real wrappers on (a) the "
-                   "real outputs of /repo/tests vs independent readers, (b) synthesised outputs (layouts validated token-exact / "
-                   ">=90% byte-exact against those real files on every run) for 1..40 atoms, multi-step, every line-level "
-                   "truncation point (strided for large files), (c) xyz files written by the real writer and read by both readers, "
-                   "(d) the Coq models run on the same token lines / titles (vm_compute). Trusted: Coq kernel + vm_compute, the "
-                   "synthesisers and independent readers in harness/c18.py, Python float/split/format, IEEE sqrt. ValueError/"
-                   "IndexError/TypeError on truncated outputs are accepted as the package's parse-failure family (histogrammed); "
-                   "other exception classes and accepted truncated outputs are findings."),
+    "technique": "Coq proof over a hand-written executable model of the output layouts and parser reassembly rules (pinned to the "
+                 "source by 77 function hashes) + correspondence on synthesised outputs whose layouts are validated against the real "
+                 "output files, + implementation oracles on real and synthesised outputs",
+    "level_text": ("Machine-checked theorems (coq/C18/Props.v, 23, closed under the global context) for EVERY matrix size and block "
+                   "width: column-block wrapping is lossless (w>=1 incl. w not dividing n); the code's own reassembly rules of ORCA "
+                   "(.hess: skip-shorter-line + hessian[i mod 3N] += block, and the $end test computed over the lines), Q-Chem "
+                   "(hess[j] += block until 3Nx3N) and NWChem (indexed lower-triangular blocks) return the printed matrix; Gaussian "
+                   "lower-triangle flattening / symm_matrix_from_ltril round trip with exact size recovery and the element-count "
+                   "guard; truncated blocks are rejected (Q-Chem: CouldNotGetProperty for every strict prefix; ORCA: no $end -> "
+                   "CouldNotGetProperty, block rule -> complete matrix or shape error; NWChem count; short gradient tables); xyz "
+                   "single/multi-frame line structure round trip with 5-decimal rounding, whole-key StringDict lookup (sound and "
+                   "complete), malformed xyz files rejected with XYZfileWrongFormat by both readers whenever the title values "
+                   "convert; statements false of the faithful model are *_refuted witnesses (solvent name with a blank, title value "
+                   "that does not convert)."),
+    "level_note": ("PARTIAL. Theorems are about token lines (str.split) and abstract values. Named *_partial / conditional: "
+                   "last_step_used_partial is about the loop shape only (which parsers have it is tied by check_scan; XTB structure, "
+                   "MOPAC energy, NWChem Hessian take the first occurrence); xyz_title_lookup(_min) assume the decidable search "
+                   "condition title_ok, which is evaluated on written titles but not proved for all; ltril_float_formula_range is the "
+                   "integer half of the IEEE argument; no theorem covers truncated Gaussian archives, short coordinate / charge tables, "
+                   "str->int/float of title values, xyz numbers beyond 5 decimals, non-ASCII whitespace. Only exercised by streams: the "
+                   "keyword/regex scanning that locates blocks, float<->text, unit factors (autode.constants), termination / error "
+                   "markers, exception classes, setters, byte decoding, file caching: (a) real wrappers on 22 real outputs vs "
+                   "independent readers, (b) synthesised outputs (layouts validated token-exact / >=90% byte-exact on every run) for "
+                   "1..40 atoms, multi-step, non-UTF-8 bytes, every line-level and character-level truncation (species state after a "
+                   "reported error included), error-message and cycle-limit endings, one Calculation re-reading rewritten files, "
+                   "(c) xyz files written by the real writer / third-party precision read by both readers, every library solvent, "
+                   "malformed counts / atom lines / title values, (d) the Coq models run on the same token lines (vm_compute). Energy "
+                   "dialects with no real output in /repo/tests (G09 E(CORR)/E(CIS), NWChem CCSD/MP2) are pinned only. Trusted: Coq "
+                   "kernel + vm_compute, the synthesisers and independent readers in harness/c18.py, Python float/split/format, IEEE "
+                   "sqrt. ValueError/IndexError/TypeError on truncated outputs are accepted as the package's parse-failure family."),
 }
